@@ -123,13 +123,17 @@ VNoRev(v) == [v EXCEPT !.rev = <<>>]
 (* The version operators of a dependency specification (PMS 8.3.1):
    "package version v satisfies <op> w".  "~" ignores both revisions.          *)
 VerOps == {"<", "<=", "=", "~", ">=", ">"}
-OpHolds(op, v, w) ==
-    CASE op = "<"  -> VerCmp(v, w) = -1
-      [] op = "<=" -> VerCmp(v, w) \in {-1, 0}
-      [] op = "="  -> VerCmp(v, w) = 0
-      [] op = "~"  -> VerCmp(VNoRev(v), VNoRev(w)) = 0
-      [] op = ">=" -> VerCmp(v, w) \in {0, 1}
-      [] op = ">"  -> VerCmp(v, w) = 1
+\* an operator read off the two comparison results c = VerCmp(v, w) and
+\* t = VerCmp(v, w) without revisions  (TLC evaluates operator arguments lazily:
+\* t is only computed for "~")
+OpOnCmp(op, c, t) ==
+    CASE op = "<"  -> c = -1
+      [] op = "<=" -> c \in {-1, 0}
+      [] op = "="  -> c = 0
+      [] op = "~"  -> t = 0
+      [] op = ">=" -> c \in {0, 1}
+      [] op = ">"  -> c = 1
+OpHolds(op, v, w) == OpOnCmp(op, VerCmp(v, w), VerCmp(VNoRev(v), VNoRev(w)))
 
 (* A canonical representative of the class of v under "VerCmp = 0": two versions
    compare equal iff their canonical forms are identical (law CanonLaw in
